@@ -51,6 +51,9 @@ def timing_cases():
         ("always-cold", "policy=always interval=100 jitter=3/10 tfrag=6/10 tdead=1000000000", cold + [("waitmerge", 700)], "nomerge"),
         ("never-hot", "policy=never interval=100 jitter=3/10 tfrag=6/10 tdead=1000000000", hot + [("waitmerge", 700)], "nomerge"),
         # the trigger is crossed only by deletes of absent keys, after an idle check (seed C18-A shape)
+        # both periodic tasks enabled at once, the other one faster (seed C18-B shape): neither may starve the other
+        ("always-hot-fast-sync", "policy=always interval=200 jitter=1/10 tfrag=6/10 tdead=1000000000 syncms=20", hot + [("waitmerge", 2500)], "merged"),
+        ("always-hot-slow-sync", "policy=always interval=100 jitter=1/10 tfrag=6/10 tdead=1000000000 syncms=350", hot + [("waitmerge", 2500)], "merged"),
         ("always-tombstones", "policy=always interval=100 jitter=0/1 tfrag=6/10 tdead=1000000000", absent + [("waitmerge", 2500)], "merged"),
     ]:
         c = S.Case(name, dict(base), ops)
@@ -145,6 +148,17 @@ def main(tier, seed):
         os.remove(logp)
     if nsync < 6:
         rep.failing.append({"what": "interval sync: the active file was forced %d times in 600 ms with a 50 ms interval" % nsync, "scenario": sc.extra})
+    # the same with a (faster) merge check running beside it and no trigger exceeded
+    sc3 = S.Case("sync-beside-merge-check", dict(sc.cfg), list(sc.ops))
+    sc3.extra = "policy=always interval=20 jitter=1/10 tfrag=1/1 tdead=1000000000 syncms=120"
+    harness_run(["store"], script(sc3), timeout=60, env={"LD_PRELOAD": T.SHIM, "IOREC_LOG": logp})
+    nsync3 = 0
+    if os.path.exists(logp):
+        nsync3 = sum(1 for l in open(logp) if l.startswith("fsync 0.bitcask.data"))
+        os.remove(logp)
+    if nsync3 < 3:
+        rep.failing.append({"what": "interval sync beside a 20 ms merge check: the active file was forced %d times in 600 ms with a 120 ms interval" % nsync3,
+                            "scenario": sc3.extra})
     sc2 = S.Case("sync-none", dict(sc.cfg), list(sc.ops))
     sc2.extra = "policy=never"
     harness_run(["store"], script(sc2), timeout=60, env={"LD_PRELOAD": T.SHIM, "IOREC_LOG": logp})
@@ -153,11 +167,11 @@ def main(tier, seed):
     rep.coverage.update({
         "checker_cmd": "make -C coq Props/C18.vo (coqc 8.16.1) ; bin/check C18",
         "trusted_base": TRUSTED,
-        "evaluations": len(tcases) + len(timing) + 2, "trigger_true": ntrue,
+        "evaluations": len(tcases) + len(timing) + 3, "fsyncs_beside_merge_check": nsync3, "trigger_true": ntrue,
         "distinct_nontrivial": len(set((c.pol, c.tf, c.tdead, c.impl[-2] if len(c.impl) >= 2 else "") for c in tcases)),
         "rule": "trigger: states with 1-12 live and 0-12 dead entries (+ tombstones of absent and present keys), 9 fragmentation "
-                "triggers incl. 0.6 and 3/5, 3 dead-bytes triggers, both policies: verif_can_merge() vs the binary64 model; timing: six "
-                "scenarios with 100-150 ms check intervals (merge appears within 2.5 s / does not within 0.7 s); interval sync: "
+                "triggers incl. 0.6 and 3/5, 3 dead-bytes triggers, both policies: verif_can_merge() vs the binary64 model; timing: eight "
+                "scenarios with 100-150 ms check intervals (merge appears within 2.5 s / does not within 0.7 s), two of them with interval sync enabled beside the merge check; interval sync (alone, and beside a faster merge check): "
                 "fsync calls on the active file counted by the recorder over 600 ms with a 50 ms interval (%d seen, %d with sync off)" % (nsync, nsync0),
         "samples": [{"config": tcases[0].extra, "ops": [S.show_op(o) for o in tcases[0].ops[:8] if o[0] in ("set", "del")]}],
         "proof": {"file": "coq/Props/C18.v", "theorems": pr["theorems"], "axioms": pr["axioms"]},
